@@ -186,7 +186,9 @@ def lean_phase(prop, tier, report):
     mods = lean.get("proof_modules", [])
     theorems = lean.get("theorems", [])
     obligations = []
-    with Lock(os.path.join(LEAN, ".verif.lock")):
+    # one lock per property: lake builds of different properties touch disjoint targets
+    # (shared modules are stable and already built), so checks run concurrently
+    with Lock(os.path.join(LEAN, ".verif.%s.lock" % prop["id"])):
         gen_ok = regenerate(prop, report)
         # drivers first: they are needed for the correspondence even if a proof breaks
         drivers = sorted({t["driver_exe"] for t in prop.get("ties", []) if t.get("driver_exe")})
@@ -301,7 +303,7 @@ def build_harness(prop, tie, scratch):
 
 def run_harness(prop, tie, exe, seed, n, tier, outdir, replay=None):
     g = tie["go"]
-    timeout = g.get("timeout_s", 600) * (6 if tier == "thorough" else 1)
+    timeout = g.get("timeout_s", 300) * (6 if tier == "thorough" else 1)
     env = go_env()
     env["GOMEMLIMIT"] = g.get("gomemlimit", "4GiB")
     for k, v in g.get("env", {}).items():
@@ -553,7 +555,8 @@ def check(pid, tier, seed, replay_path, replay_tie=None):
                 if any_fail_input:
                     break
             # search for a failing input when something broke but no oracle failure yet
-            if (broken or corr_broken) and not any_fail_input and not replay_path:
+            hung = any(p.get("harness_rc") == 124 for p in tr.get("passes", []))
+            if (broken or corr_broken) and not any_fail_input and not replay_path and not hung:
                 sn = int(tie.get("tiers", {}).get(tier, {}).get("search_n",
                          int(tie.get("tiers", {}).get(tier, {}).get("n", 1000))))
                 for k in range(3):
